@@ -126,7 +126,7 @@ def check(run):
                          generics_pool=(None, None, "T", "a", "aT", "N", "TU", "Tw", "aTw", "I", "aI", "Tdef", "TwU"))
         gen.add_noise(r, s, skip=("message", "docs", "serialize", "serialize_all", "prefix"))
         specs.append(decorate(r, s))
-    units = [shards.Unit("u_" + s.name.lower(), glue(s), meta={"enum_src": s.render()}, sig=s.signature()) for s in specs]
+    units = [shards.Unit("u_" + s.name.lower(), glue(s), meta={"enum_src": s.render(), "bare_src": s.render_bare()}, sig=s.signature()) for s in specs]
     run.rule = RULE
     samples = standard_flow(run, units, deps["std"], vmon, profiles=("debug",), tag="c14")
     pick_samples(run, samples, {u.name: u for u in units})
